@@ -767,6 +767,7 @@ class Constructors(Suite):
 
     name = "constructors"
     uses_model = True
+    supplementary = True  # the model side is Gen/Builders (regenerated helpers): a difference is INFO, the oracle is core
     _gen = None
 
     def generated(self):
@@ -911,6 +912,7 @@ class HelperFlows(Suite):
     through a generated builder the Lean evaluation of that builder predicts the emitted object."""
 
     name = "helper-flows"
+    supplementary = True  # model side: the generated builder call_tool uses; the oracle is core
 
     def cases(self, ctx, budget):
         S = schema_h.schema()
@@ -1094,6 +1096,7 @@ class DeepValidate(Suite):
     never turned into a VIOLATION or a broken obligation by itself."""
 
     name = "deep-validate"
+    supplementary = True
     mismatches: list = []
 
     VALUES = [None, True, False, 0, 1, -7, 12, 2**40, 0.5, 1.5, "", "a", "12", "-3", "007", "true", "True", "YES", "on", "0", "no",
@@ -1181,6 +1184,7 @@ class MemberKinds(Suite):
     inputs on which the two backends split is recorded."""
 
     name = "member-kinds"
+    supplementary = True
     mismatches: list = []
     splits: collections.Counter = collections.Counter()
     KINDS = [None, True, False, 0, 7, 0.5, "", "s", "7", [], [1], ["a"], {}, {"a": 1}, "<missing>"]
@@ -1206,7 +1210,7 @@ class MemberKinds(Suite):
                         out.append({"cls": cid, "member": G.wire(f), "wire": w, "forms": False})
         if budget == "quick":
             rng = ctx.sub_rng(self.name)
-            out = rng.sample(out, min(len(out), 1500))
+            out = rng.sample(out, min(len(out), 800))
         return out
 
     def impl_batch(self, cases):
